@@ -86,6 +86,18 @@ def configs(tier, seed):
         out.append(_cfg("T_HOO", "B", 1, 5, {"nu": nu, "rho": rho}, "-nu%s-rho%s" % (nu, rho)))
         out.append(_cfg("HCT", "B", 1, 6, {"nu": nu, "rho": rho}, "-nu%s-rho%s" % (nu, rho)))
     out.append(_cfg("HCT", "B", 1, 7, {"c": 0.1}, "-c0.1"))
+    # extremes of the documented parameter ranges
+    for tag, pr in (("rho0.99", {"rho": 0.99}), ("rho0.01", {"rho": 0.01}), ("nu1e-3", {"nu": 1e-3}), ("nu1e3", {"nu": 1e3})):
+        out.append(_cfg("T_HOO", "B", 1, 5, pr, "-" + tag))
+        out.append(_cfg("HCT", "B", 1, 6, pr, "-" + tag))
+        out.append(_cfg("VHCT", "B", 1, 3, pr, "-" + tag))
+        out.append(_cfg("Zooming", "B", 1, 4, pr, "-" + tag))
+    for tag, pr in (("c1e-3", {"c": 1e-3}), ("c5", {"c": 5.0}), ("delta0.5", {"delta": 0.5}), ("delta1e-9", {"delta": 1e-9})):
+        out.append(_cfg("HCT", "B", 1, 6, pr, "-" + tag))
+        out.append(_cfg("VHCT", "B", 1, 3, pr, "-" + tag))
+    out.append(_cfg("VHCT", "B", 1, 3, {"bound": 1e-3}, "-bound1e-3"))
+    out.append(_cfg("VHCT", "B", 1, 3, {"bound": 100.0}, "-bound100"))
+    out.append(_cfg("T_HOO", "B", 1, 5, {"rounds": 100000}, "-rounds1e5"))
     out.append(_cfg("DOO", "B", 1, 3, {"delta": "user"}, "-userdelta"))
     out.append(_cfg("StoSOO", "B", 1, 6, {"k": None}, "-kdefault"))
     out.append(_cfg("StoSOO", "B", 1, 7, {"k": 3}, "-k3"))
